@@ -29,7 +29,7 @@ THEOREMS = ["JanetModel.Props.C12." + t for t in (
     "replace_all_agrees_with_repeated_match", "replace_agrees_with_repeated_match", "match_attempt_end_in_range",
     "compile_validated_correct", "compiled_entry_points_eq_source",
     "compile_correct", "compile_entry_points_eq_source", "compile_simulation", "compile_entry_zero", "compile_entry_points_from_zero",
-    "backref_flag_unobservable", "backref_flag_unobservable_op", "compiled_backref_flag_certified",
+    "backref_flag_unobservable", "backref_flag_unobservable_op", "compiled_backref_flag_certified", "compile_flag_sound", "compile_correct_real_flag",
     "lenprefix_leak_breaks_op_eq_den", "decode_sizes_agree")]
 # facts about the CURRENT peg.c (Gen/Peg.lean) that the model relies on; they fail to check on a tree with the defects
 TIE = ["JanetModel.Peg.Tie." + t for t in (
